@@ -1312,7 +1312,7 @@ def rule_W_NEW(ctx, d, parts=('dispatch', 'forward'), only=None):
                          tname, ', '.join(lost), d.name, lost[0], lost[0]), where(d, new.node.lineno), render_path(o))
 
 
-def rule_W_STATE(ctx, d, keys=('maxsize', 'purge')):
+def rule_W_STATE(ctx, d, keys=('maxsize', 'purge'), allow_default=False):
     """the configured bound and purge flag are stored as given: on every path of __init__ that fills __state__, state[k] is the constructor
     parameter k itself, or one constant the class pins k to on all paths (no_cache: maxsize 0).  A value decided at construction time from the
     run-time condition of the cache (e.g. purge switched off because no archive is attached *yet*) freezes a setting the user can still change
@@ -1343,6 +1343,9 @@ def rule_W_STATE(ctx, d, keys=('maxsize', 'purge')):
             if v not in distinct:
                 distinct.append(v)
         ok = len(distinct) == 1 and distinct[0] is not None and (distinct[0] == ('param', k) or is_const(distinct[0]))
+        if not ok and allow_default:
+            # the parameter itself, or a constructed default on the path where it is None
+            ok = all(v == ('param', k) or (v is not None and not contains_term(v, lambda t: t[0] == 'param')) for v in distinct) and ('param', k) in distinct
         ctx.ob('W-STATE', '%s.%s' % (d.name, k), ok)
         if not ok:
             bad = [(v, o) for v, o in vs if v != ('param', k)]
